@@ -570,24 +570,28 @@ type vdkScen struct {
 	phase  time.Duration
 	short  time.Duration
 
-	tick     int
-	deadline map[int]time.Time // short-timeout label -> instant
-	tmoLabel map[int64]int     // concrete timeout (UnixNano) -> label
-	tmoLast  map[int]time.Time
-	inst     int
-	longBase time.Time
-	seed1    []byte
-	seedID   map[string]string
-	shares   map[string]map[string]*kdkg.DistKeyShare // hex(group hash) -> pid -> share
-	stepIdx  int
-	execWas  bool // the last successful execute left the node in Executing
-	kickoff  time.Time // when the node's own kyber protocol starts (after the last successful execute)
-	lastPkt  *pdkg.GossipPacket
-	lastX    vlib.E
-	execMiss int
-	late     bool
-	wedged   bool
-	evs      []vdkEv
+	tick         int
+	deadline     map[int]time.Time // short-timeout label -> instant
+	tmoLabel     map[int64]int     // concrete timeout (UnixNano) -> label
+	tmoLast      map[int]time.Time
+	inst         int
+	longBase     time.Time
+	seed1        []byte
+	seedID       map[string]string
+	shares       map[string]map[string]*kdkg.DistKeyShare // hex(group hash) -> pid -> share
+	stepIdx      int
+	execWas      bool // the last successful execute left the node in Executing
+	seenObs      bool
+	lastState    Status
+	lastEpoch    int
+	lastFinEpoch int
+	kickoff      time.Time // when the node's own kyber protocol starts (after the last successful execute)
+	lastPkt      *pdkg.GossipPacket
+	lastX        vlib.E
+	execMiss     int
+	late         bool
+	wedged       bool
+	evs          []vdkEv
 }
 
 func vdkGroupKey(g *key.Group) string {
@@ -801,17 +805,39 @@ func (s *vdkScen) noteSpontaneous(pre *DBState, timeStep bool) {
 	if cur == nil || cur.State == Executing {
 		return
 	}
-	if timeStep && s.tmoID(pre.Timeout) <= s.tick {
+	if timeStep && s.tmoID(pre.Timeout) <= s.tick && cur.State == Failed {
 		s.execWas = false
 		return // the attempt's timeout passed: the execution legitimately gives up
 	}
 	s.late = true
 }
 
+// between two steps of the script nothing may happen to the buckets (an execution that ends on its
+// own, e.g. a single-node group completing without any peer, is not what the script ordered)
+func (s *vdkScen) checkQuiet() *DBState {
+	cur, fin, _ := s.buckets()
+	if s.seenObs && cur != nil {
+		fe := -1
+		if fin != nil {
+			fe = int(fin.Epoch)
+		}
+		if cur.State != s.lastState || int(cur.Epoch) != s.lastEpoch || fe != s.lastFinEpoch {
+			s.late = true
+		}
+	}
+	return cur
+}
+
 func (s *vdkScen) observe(f vlib.E) vlib.E {
 	cur, fin, err := s.buckets()
 	if err != nil {
 		f["storeerr"] = err.Error()
+	}
+	if cur != nil {
+		s.seenObs, s.lastState, s.lastEpoch, s.lastFinEpoch = true, cur.State, int(cur.Epoch), -1
+		if fin != nil {
+			s.lastFinEpoch = int(fin.Epoch)
+		}
 	}
 	f["cur"] = s.project(cur)
 	f["fin"] = s.project(fin)
@@ -897,7 +923,7 @@ func (s *vdkScen) doCmd(st vdkStep) {
 		cmd.Command = &pdkg.DKGCommand_Abort{Abort: &pdkg.AbortOptions{}}
 	}
 	var err error
-	pre, _, _ := s.buckets()
+	pre := s.checkQuiet()
 	cr := vlib.Call(15*time.Second, func() { _, err = s.proc.Command(context.Background(), cmd) })
 	res, text := vdkResult(cr, err)
 	s.noteSpontaneous(pre, false)
@@ -979,7 +1005,7 @@ func (s *vdkScen) sendPacket(p *pdkg.GossipPacket, x vlib.E) {
 	s.checkLate()
 	dup := s.proc.SeenPackets[hex.EncodeToString(p.Metadata.Signature)]
 	var err error
-	pre, _, _ := s.buckets()
+	pre := s.checkQuiet()
 	cr := vlib.Call(15*time.Second, func() { _, err = s.proc.Packet(context.Background(), p) })
 	res, text := vdkResult(cr, err)
 	s.noteSpontaneous(pre, false)
@@ -1017,7 +1043,7 @@ func (s *vdkScen) doPkt(st vdkStep) {
 
 func (s *vdkScen) doTime() {
 	// wait until every short timeout issued so far (label <= tick+1) has passed
-	pre, _, _ := s.buckets()
+	pre := s.checkQuiet()
 	s.tick++
 	var until time.Time
 	for l, d := range s.deadline {
@@ -1043,6 +1069,7 @@ func (s *vdkScen) doTime() {
 }
 
 func (s *vdkScen) doExec(st vdkStep) {
+	s.checkQuiet()
 	cur, fin, _ := s.buckets()
 	out := "none"
 	if cur == nil {
